@@ -56,7 +56,8 @@ CLAIMED = {
     "C12": dict(
         text="Lean 4 theorems about estimate, a line-by-line exact-rational model of _estimate_system_molecular_weight and the Mixture setters "
              "(Python truthiness and error points included): C12_consistent (generable => one system mass on every component, each absolute mass is its "
-             "percentage of it, percentages sum to 100 within 1e-6, caller's mass kept), C12_underdetermined, rejection lemmas, and the recorded "
+             "percentage of it, percentages sum to 100 within 1e-6, caller's mass kept), C12_percentages_preserved (position by position every percentage the user wrote is still there, whatever the answer), "
+             "C12_absolute_preserved (an absolute mass written without percentage is kept exactly when no percentage is inferred), C12_underdetermined, rejection lemmas, and the recorded "
              "completeness counterexample. Correspondence: all 363 shapes of 1-5 components x value patterns x caller mass through the real function, "
              "every resulting field compared; oracle: an independent exact linear-algebra classifier of the specification.",
         note="Known finding determined-but-refused (completeness) is reported as KNOWN-FINDING; the accepted-contradiction defect was repaired by a fix: commit "
